@@ -157,7 +157,7 @@ Definition run_ff (sx sy xs ys ox oy : str) (rest : list str) : str :=
 (** A child index; clamped so that an absurd index stays a small unary number (any
     index beyond the number of members is an IndexErr anyway). *)
 Definition parse_idx (s : str) : option nat :=
-  match parse_N s with Some n => Some (N.to_nat (N.min n 100000)) | None => None end.
+  match parse_N s with Some n => Some (N.to_nat (N.min n 4096)) | None => None end.
 
 Definition parse_path (s : str) : option (list nat) :=
   if str_eqb s k_dash then Some [] else opt_all (map parse_idx (split_on c_dot s)).
